@@ -200,8 +200,16 @@ fn manifest_json_ex_buf(
 			let flat = s.clone().into_flat();
 			if let Some(truncate) = options.debug_truncate_strings {
 				if flat.len() > truncate {
-					let (start, end) = flat.split_at(truncate / 2);
-					let (_, end) = end.split_at(end.len() - truncate / 2);
+					// Cut at character boundaries, a multi-byte character may cover the middle
+					let mut start_len = truncate / 2;
+					while !flat.is_char_boundary(start_len) {
+						start_len -= 1;
+					}
+					let mut end_start = flat.len() - truncate / 2;
+					while !flat.is_char_boundary(end_start) {
+						end_start += 1;
+					}
+					let (start, end) = (&flat[..start_len], &flat[end_start..]);
 					escape_string_json_buf(&format!("{start}..{end}"), buf);
 				} else {
 					escape_string_json_buf(&flat, buf);
